@@ -60,6 +60,9 @@ def record(out, prop, fn_qual, clause, path, variant, vc, tier="quick", describe
         "instances": vc.n_instances,
         "reason": vc.reason,
     }
+    if getattr(vc, "cross", None) is not None:
+        rec["cross"] = vc.cross
+        rec["cross_seconds"] = vc.cross_seconds
     if vc.verdict == "sat":
         rec["model"] = getattr(vc, "model_values", {})
         try:
